@@ -158,6 +158,41 @@ equal_harness!(equal_types_across_orders_c1, T_U_STRUCTS);
 equal_harness!(equal_types_across_orders_c2, T_ST_AB);
 equal_harness!(equal_types_across_orders_d1, T_U_FUNS);
 equal_harness!(equal_types_across_orders_d2, T_U_MUTS);
+#[cfg(feature = "verif_thorough")]
+equal_harness!(equal_types_across_orders_e1, T_U_TUPS);
+#[cfg(feature = "verif_thorough")]
+equal_harness!(equal_types_across_orders_e2, T_U_ARR_MUT);
+
+/// the meet of two DIFFERENT unions that share more than one alternative does not depend on the order
+/// either union is iterated in (`int|float` with `int|float|string`, `int|[int]` with `int|float|string`)
+fn conjoin_orders(a: Ty, b: Ty) {
+    let base = variant(a, 0).conjoin(&variant(b, 0));
+    let mut i = 1u8;
+    while i < 5 {
+        let other = variant(a, i).conjoin(&variant(b, i));
+        assert!(equiv(&base, &other));
+        let swapped = variant(b, i).conjoin(&variant(a, i));
+        assert!(equiv(&base, &swapped));
+        i += 1;
+    }
+}
+#[kani::proof]
+#[kani::unwind(10)]
+#[kani::stub(alloc::fmt::format, crate::verif_common::stub_format)]
+pub fn conjoin_of_overlapping_unions_order_free() {
+    conjoin_orders(T_U_INT_FLOAT, T_U_INT_FLOAT_STR);
+    set_order(255);
+    kani::cover!(true);
+}
+#[cfg(feature = "verif_thorough")]
+#[kani::proof]
+#[kani::unwind(10)]
+#[kani::stub(alloc::fmt::format, crate::verif_common::stub_format)]
+pub fn conjoin_of_overlapping_unions_order_free_b() {
+    conjoin_orders(T_U_INT_ARR_INT, T_U_INT_FLOAT_STR);
+    set_order(255);
+    kani::cover!(true);
+}
 
 /// Hash is consistent with Eq (the container model hides the hasher, so this is checked directly,
 /// with an order-sensitive reference hasher)
@@ -199,6 +234,8 @@ macro_rules! hash_harness {
 hash_harness!(hash_consistent_with_eq_a, T_U_INT_FLOAT_STR, T_ST_AB);
 hash_harness!(hash_consistent_with_eq_b, T_U_STRUCTS, T_U_INT_ARR_INT);
 hash_harness!(hash_consistent_with_eq_c, T_ST_AB_ANY, T_ARR_U_INT_FLOAT);
+#[cfg(feature = "verif_thorough")]
+hash_harness!(hash_consistent_with_eq_d, T_U_TUPS, T_U_FUNS);
 
 /// the default value of a type (observable as the payload of an exhausted iterator) does not
 /// depend on the iteration order
